@@ -1,8 +1,8 @@
 SPECIFICATION TSpec
 CONSTANTS
   Transport = "tls"
-  ResidueAfterFailure = TRUE
-  ShortCookieRead = TRUE
+  ResidueAfterFailure = FALSE
+  ShortCookieRead = FALSE
   DialResetsData = TRUE
   Alpns = {}
   Alphabet = {}
